@@ -265,8 +265,10 @@ class _PackedBoolArray:
                 else:
                     _stop = key.stop
 
-                if _stop > self.size or _stop < start_index:
+                if _stop > self.size:
                     raise ValueError("Slice stop is out of range.")
+                # As for numpy arrays, a stop before the start gives an empty array.
+                _stop = max(_stop, key_start)
 
                 # We need to know how to slice the data buffer and
                 # recompute the stop index relative to the slice.
